@@ -265,6 +265,7 @@ class RowFn(UserFn):
             shape = list(batch) + [Dim([self.out_cols])]
         out = Tensor(STensor(shape, fn, self.dtype, self.name))
         out.meta["rowfn"] = (self, ts)
+        rec["result"] = out
         return out
 
 
